@@ -676,8 +676,8 @@ def check_batch(case, ctx):
             n = np.where(mm, nm, n)
             d = np.where(mm & (d != 0), dm, d)
     share = case.get('share', 'none')
-    if share == 'index-is-thickness' and wexp:
-        share = 'none'        # the thickness must stay a few wavelengths
+    if share == 'index-is-thickness' and (wexp or num == 'f32'):
+        share = 'none'        # the thickness must stay a few wavelengths; single precision: films twice as thick as the other float32 cases lose another bit of phase per layer (thorough tier, 12-layer periodic film: 1e-3 against a tolerance of 2e-4)
     if share != 'none' and L > 1 and not cplx:
         ks = int(U.rng_of(case['seed'], 29).integers(0, L - 1))
         if share in ('index-maps', 'both-maps', 'equal'):
@@ -685,7 +685,7 @@ def check_batch(case, ctx):
         if share in ('thickness-maps', 'both-maps', 'equal'):
             d[ks + 1] = d[ks]
         if share == 'index-is-thickness':
-            d[ks] = n[ks]         # a film 1 - 4 um thick (float32 / integer maps: the same numbers in the same type)
+            d[ks] = n[ks]         # a film 1 - 4 um thick (integer maps: the same numbers in the same type)
     else:
         share = 'none'
     if form.startswith('array'):
@@ -729,7 +729,12 @@ def check_batch(case, ctx):
     # next to grazing incidence / the critical angle a last-bit difference in a sine is amplified by 1/cos (1/cos^2 in the worst case)
     cmin = max(min([math.cos(th0)] + [_cos_in(n0, th0, float(x)) for x in np.real(n[np.imag(n) == 0]).ravel()]), 1e-150)
     if num == 'f32':
-        rt_ = 1e-4 + 1e-5 / cmin      # the batched and the scalar path round differently in float32 (observed 6e-4 at cos = 8e-4)
+        # the batched and the scalar path round differently in float32: the rounding of each layer's phase thickness 2 pi n d / lambda (relative
+        # 6e-8) reaches r and t amplified by 1 / cos.  Observed on correct code (8000 float32 stacks of the thorough tier, periodic films of up
+        # to 18 layers included): |difference| <= 14 * 6e-8 * (sum of phase thicknesses + number of layers) / cos; the former fixed bound
+        # 1e-4 + 1e-5 / cos was reached to 60 % by such stacks and exceeded at thorough seeds 1 and 2.  100 x the observed factor:
+        phase_sum = float(np.max(np.sum(2.0 * np.pi * np.abs(n) * np.abs(d) / wvl, axis=0)))
+        rt_ = max(1e-4 + 1e-5 / cmin, 1e-4 * (phase_sum + L) / cmin)
     elif f > FMAX:
         rt_ = 1e-11 + 1e-13 / cmin ** 2
     else:
